@@ -1814,3 +1814,361 @@ func REqSub(c *core.Ctx) {
 		c.Bad("equals / the subtractions are compared unconditionally", fd.Pos(), "no `return c.sub.equals(c2.sub, …)` found: the subtraction does not take part in the comparison")
 	}
 }
+
+// ---------------------------------------------------------------------------
+// R-SETCOMPLETE: a set published as "every match starts with one of these" is
+// collected from ALL alternatives.
+// The helpers of the find-optimizations that turn a list of prefixes into a
+// derived list (first runes, rune forms) feed candidate searches that skip
+// every position not in the set.  Their collecting loop over the parameter
+// runs to completion; the only early way out is giving up altogether
+// (returning nil / an empty result), which switches the optimisation off.
+// ---------------------------------------------------------------------------
+
+func RSetComplete(c *core.Ctx) {
+	c.Rule("R-SETCOMPLETE", "in syntax/optimizations.go every function that builds its slice result by appending inside a range over a slice parameter finishes that loop: no break leaves it, and a return inside it hands back nil or an empty literal — a partial set would make the candidate search skip the positions of the alternatives that were not looked at", 1)
+	p := c.P
+	syn := p.Pkg("syntax")
+	info := syn.TypesInfo
+	n := 0
+	for _, fd := range p.FuncDecls(syn) {
+		if fd.Body == nil || p.IsTestFile(fd.Pos()) || !strings.HasSuffix(p.Fset.Position(fd.Pos()).Filename, "optimizations.go") {
+			continue
+		}
+		if fd.Type.Results == nil || len(fd.Type.Results.List) != 1 {
+			continue
+		}
+		if _, ok := info.TypeOf(fd.Type.Results.List[0].Type).Underlying().(*types.Slice); !ok {
+			continue
+		}
+		params := map[types.Object]bool{}
+		for _, f := range fd.Type.Params.List {
+			for _, id := range f.Names {
+				if _, ok := info.TypeOf(f.Type).Underlying().(*types.Slice); ok {
+					params[info.ObjectOf(id)] = true
+				}
+			}
+		}
+		name := core.DeclName(syn, fd)
+		ast.Inspect(fd.Body, func(x ast.Node) bool {
+			rg, ok := x.(*ast.RangeStmt)
+			if !ok {
+				return true
+			}
+			id, ok := ast.Unparen(rg.X).(*ast.Ident)
+			if !ok || !params[info.ObjectOf(id)] {
+				return true
+			}
+			// does the loop append to something that is returned?
+			appends := false
+			ast.Inspect(rg.Body, func(y ast.Node) bool {
+				if call, ok := y.(*ast.CallExpr); ok {
+					if fid, ok := ast.Unparen(call.Fun).(*ast.Ident); ok && fid.Name == "append" {
+						if _, isB := info.ObjectOf(fid).(*types.Builtin); isB {
+							appends = true
+						}
+					}
+				}
+				return true
+			})
+			if !appends {
+				return true
+			}
+			n++
+			c.Visit(name)
+			key := fmt.Sprintf("%s / the collecting loop over %s runs to completion", name, id.Name)
+			var bad token.Pos
+			why := ""
+			var walk func(node ast.Node, inner bool)
+			walk = func(node ast.Node, inner bool) {
+				ast.Inspect(node, func(y ast.Node) bool {
+					if y == nil || bad.IsValid() {
+						return false
+					}
+					switch s := y.(type) {
+					case *ast.FuncLit:
+						return false
+					case *ast.ForStmt:
+						if y != node {
+							walk(s.Body, true)
+							return false
+						}
+					case *ast.RangeStmt:
+						if y != node {
+							walk(s.Body, true)
+							return false
+						}
+					case *ast.SwitchStmt, *ast.TypeSwitchStmt, *ast.SelectStmt:
+						if y != node {
+							walk(y.(interface{ Pos() token.Pos }).(ast.Node), true)
+							return false
+						}
+					case *ast.BranchStmt:
+						if s.Tok == token.BREAK && (!inner || s.Label != nil) {
+							bad, why = s.Pos(), "a break leaves the loop before every element was looked at"
+						}
+					case *ast.ReturnStmt:
+						for _, r := range s.Results {
+							r = ast.Unparen(r)
+							if rid, ok := r.(*ast.Ident); ok && rid.Name == "nil" {
+								continue
+							}
+							if cl, ok := r.(*ast.CompositeLit); ok && len(cl.Elts) == 0 {
+								continue
+							}
+							bad, why = s.Pos(), "a return inside the loop hands back what was collected so far"
+						}
+					}
+					return true
+				})
+			}
+			walk(rg.Body, false)
+			if bad.IsValid() {
+				c.Bad(key, bad, "%s: the set is published as complete (a candidate search skips every position whose character is not in it), so matches that begin with one of the remaining alternatives are lost", why)
+			} else {
+				c.OK(key, rg.Pos(), "no break, no partial return")
+			}
+			return true
+		})
+	}
+	if n == 0 {
+		c.Anchor("collecting loops in syntax/optimizations.go")
+	}
+}
+
+// ---------------------------------------------------------------------------
+// R-ENDZLATEST: under \Z a candidate is given up only behind the LATEST start.
+// \Z (and $ without Multiline) holds at the end of the text and in front of a
+// final newline.  A fixed-length pattern that ends in it can therefore start
+// at end-len or, when the text ends in '\n', at end-len-1.  A finder for such
+// a mode may move the position FORWARD to the earlier of the two, but it may
+// answer "no candidate left" only when the position is behind end-len: the
+// last character of the pattern can be the newline itself (`\d\s$` on
+// "x1\n").
+// ---------------------------------------------------------------------------
+
+func REndZLatest(c *core.Ctx) {
+	c.Rule("R-ENDZLATEST", "every candidate finder that the optimized dispatcher calls for a find mode named …_EndZ compares the current position, wherever the outcome of the comparison is to give up (return false), with Runtextend minus the fixed length and nothing less: a bound that has the final newline already taken off rejects the start position at which the pattern's last character matches that newline", 1)
+	p := c.P
+	pk := p.Pkg("")
+	info := pk.TypesInfo
+	textend := p.LookupField("", "Runner", "Runtextend")
+	textpos := p.LookupField("", "Runner", "Runtextpos")
+	if textend == nil || textpos == nil {
+		c.Anchor("Runner.Runtextend / Runner.Runtextpos")
+		return
+	}
+	// handlers: functions called in a switch arm that lists an _EndZ find mode
+	handlers := map[*ssa.Function]string{}
+	arms := 0
+	for _, fd := range p.FuncDecls(pk) {
+		if fd.Body == nil || p.IsTestFile(fd.Pos()) {
+			continue
+		}
+		ast.Inspect(fd.Body, func(x ast.Node) bool {
+			cc, ok := x.(*ast.CaseClause)
+			if !ok {
+				return true
+			}
+			mode := ""
+			for _, e := range cc.List {
+				var obj types.Object
+				switch y := ast.Unparen(e).(type) {
+				case *ast.SelectorExpr:
+					obj = info.ObjectOf(y.Sel)
+				case *ast.Ident:
+					obj = info.ObjectOf(y)
+				}
+				if k, ok := obj.(*types.Const); ok && strings.HasSuffix(core.BaseName(k), "_EndZ") {
+					mode = core.BaseName(k)
+				}
+			}
+			if mode == "" {
+				return true
+			}
+			arms++
+			for _, st := range cc.Body {
+				ast.Inspect(st, func(y ast.Node) bool {
+					if call, ok := y.(*ast.CallExpr); ok {
+						if cal := core.Callee(info, call); cal != nil && cal.Pkg() == pk.Types {
+							if f := p.SSAFunc(cal); f != nil && len(f.Blocks) > 0 && len(cc.List) == 1 {
+								handlers[f] = mode
+							}
+						}
+					}
+					return true
+				})
+			}
+			return true
+		})
+	}
+	if p.LookupObj("syntax", "TrailingAnchor_FixedLength_LeftToRight_EndZ") == nil {
+		c.Anchor("syntax.TrailingAnchor_FixedLength_LeftToRight_EndZ")
+		return
+	}
+	if len(handlers) == 0 {
+		c.OK("regexp2 / no optimized finder is dispatched for an …_EndZ mode", token.NoPos, "%d switch arms list such a mode, none calls a finder of its own: the default finder handles \\Z", arms)
+		return
+	}
+	type form struct {
+		end    bool
+		minusL bool
+		off    int64
+	}
+	for h, mode := range handlers {
+		name := core.SSAName(h)
+		c.Visit(name)
+		// closure of module callees
+		closure := map[*ssa.Function]bool{h: true}
+		for changed := true; changed; {
+			changed = false
+			for f := range closure {
+				for _, b := range f.Blocks {
+					for _, ins := range b.Instrs {
+						if call, ok := ins.(ssa.CallInstruction); ok {
+							if cal := call.Common().StaticCallee(); cal != nil && core.FnPkgPath(cal) == core.PkgRoot && len(cal.Blocks) > 0 && !closure[cal] && len(closure) < 12 {
+								closure[cal] = true
+								changed = true
+							}
+						}
+					}
+				}
+			}
+		}
+		var eval func(v ssa.Value, depth int) []form
+		eval = func(v ssa.Value, depth int) []form {
+			if depth > 8 {
+				return nil
+			}
+			switch x := v.(type) {
+			case *ssa.UnOp:
+				if x.Op == token.MUL && core.FieldVarOfAddr(x.X) == textend {
+					return []form{{end: true}}
+				}
+			case *ssa.Phi:
+				var out []form
+				for _, e := range x.Edges {
+					out = append(out, eval(e, depth+1)...)
+				}
+				return out
+			case *ssa.Parameter:
+				var out []form
+				idx := -1
+				for i, prm := range x.Parent().Params {
+					if prm == x {
+						idx = i
+					}
+				}
+				for f := range closure {
+					for _, b := range f.Blocks {
+						for _, ins := range b.Instrs {
+							if call, ok := ins.(ssa.CallInstruction); ok && call.Common().StaticCallee() == x.Parent() && idx >= 0 && idx < len(call.Common().Args) {
+								out = append(out, eval(call.Common().Args[idx], depth+1)...)
+							}
+						}
+					}
+				}
+				return out
+			case *ssa.BinOp:
+				if x.Op != token.SUB && x.Op != token.ADD {
+					return nil
+				}
+				l := eval(x.X, depth+1)
+				if len(l) == 0 {
+					return nil
+				}
+				if k, ok := x.Y.(*ssa.Const); ok && k.Value != nil && k.Value.Kind() == constant.Int {
+					kv, _ := constant.Int64Val(k.Value)
+					if x.Op == token.SUB {
+						kv = -kv
+					}
+					var out []form
+					for _, f := range l {
+						f.off += kv
+						out = append(out, f)
+					}
+					return out
+				}
+				if x.Op == token.SUB && len(eval(x.Y, depth+1)) == 0 {
+					// end - <a length>
+					var out []form
+					for _, f := range l {
+						f.minusL = true
+						out = append(out, f)
+					}
+					return out
+				}
+			}
+			return nil
+		}
+		isPosLoad := func(v ssa.Value) bool {
+			ld, ok := v.(*ssa.UnOp)
+			return ok && ld.Op == token.MUL && core.FieldVarOfAddr(ld.X) == textpos
+		}
+		givesUp := func(b *ssa.BasicBlock) bool {
+			// the block (or its single successor chain, 2 deep) returns the constant false
+			for d := 0; d < 3 && b != nil; d++ {
+				for _, ins := range b.Instrs {
+					if ret, ok := ins.(*ssa.Return); ok {
+						for _, r := range ret.Results {
+							if k, ok := r.(*ssa.Const); ok && k.Value != nil && k.Value.Kind() == constant.Bool && !constant.BoolVal(k.Value) {
+								return true
+							}
+						}
+						return false
+					}
+				}
+				if len(b.Succs) != 1 {
+					return false
+				}
+				b = b.Succs[0]
+			}
+			return false
+		}
+		n := 0
+		for f := range closure {
+			for _, b := range f.Blocks {
+				if len(b.Instrs) == 0 || len(b.Succs) != 2 {
+					continue
+				}
+				ifi, ok := b.Instrs[len(b.Instrs)-1].(*ssa.If)
+				if !ok {
+					continue
+				}
+				cmp, ok := ifi.Cond.(*ssa.BinOp)
+				if !ok {
+					continue
+				}
+				var bound ssa.Value
+				switch {
+				case isPosLoad(cmp.X):
+					bound = cmp.Y
+				case isPosLoad(cmp.Y):
+					bound = cmp.X
+				default:
+					continue
+				}
+				forms := eval(bound, 0)
+				if len(forms) == 0 || !(givesUp(b.Succs[0]) || givesUp(b.Succs[1])) {
+					continue
+				}
+				n++
+				key := fmt.Sprintf("%s (%s) / give-up comparison #%d in %s uses the latest start", name, mode, n, core.BaseName(f))
+				worst := int64(0)
+				for _, fm := range forms {
+					if fm.end && fm.off < worst {
+						worst = fm.off
+					}
+				}
+				if worst < 0 {
+					c.Bad(key, cmp.Pos(), "`%s` decides to give up, and its bound can be Runtextend%+d minus the length (the final newline already taken off): the start at Runtextend minus the length, where the pattern's last character matches that newline, is never tried — `\\d\\s$` on \"x1\\n\" finds nothing", cmp.String(), worst)
+				} else {
+					c.OK(key, cmp.Pos(), "`%s`: the bound is Runtextend minus the length on every path", cmp.String())
+				}
+			}
+		}
+		if n == 0 {
+			c.OK(name+" ("+mode+") / the finder never gives up on a comparison with the end of the text", h.Pos(), "no comparison of Runtextpos with a bound derived from Runtextend leads to `return false`")
+		}
+	}
+}
